@@ -301,12 +301,12 @@ func runClientNTS(e *netEnv, a []val) string {
 	for _, st := range a[0].l {
 		do(zs(st.l[0]), st.l[1].z, zs(st.l[2]))
 	}
-	// sentinel: whatever is left in the client's cookie store is used up (at most 40 calls), every
+	// sentinel: whatever is left in the client's cookie store is used up (at most 12 calls), every
 	// call has to return; then a call after an honest key exchange must succeed
 	honest := []int64{124, 124, 124, 124, 124, 124, 124, 124}
-	ntsLimit = callLimit
+	ntsLimit = 5 * time.Second
 	var err error
-	for i := 0; i < 40; i++ {
+	for i := 0; i < 12; i++ {
 		err = do(honest, 0, []int64{124})
 		if err == nil {
 			break
